@@ -42,6 +42,9 @@ func CanonicalJSON(src io.Reader) ([]byte, error) {
 	if err != nil {
 		return nil, err
 	}
+	if obj == nil {
+		return nil, errors.New("c14n: no JSON value found in input")
+	}
 	return obj.MarshalJSON()
 }
 
